@@ -22,6 +22,17 @@
   it was not delayed (OV = -) it is an ordinary `destroy` placed anywhere after DEPLOY (in practice:
   after the creation returned).
 
+  A scenario may script KILL calls that FAIL (role outcome `refuse`: the master answers the first KILL
+  call naming the task with an error; with mesos-go a failed call also drops the subscription, so
+  the KILL calls that follow in the same loop fail at the client — which ones depends on the order
+  of the roster, a Go map iteration). Which KILL calls failed in a round is read off the snapshot
+  after it (a task of the master's table that is still running, was not sent a KILL and sits
+  unowned in the roster) and fed to the model as `State.refusing` before every atomic part of the
+  round — only in scenarios that script such a failure at all; everywhere else the model is
+  replayed with every KILL call succeeding, as before. What the model then decides is what the
+  property is about: the request that issued a failed KILL answers an error, the task is back in
+  the roster, the environment is gone all the same.
+
   The model replayed is the code as it is (`Own.codeCfg`, the default of `Own.init`):
   it cannot crash at a complete claim, its teardown names the hook tasks of all
   weights, and the oracle of the rendezvous race (`late`, still passed when a call was
@@ -60,6 +71,7 @@ inductive OpIn where
   | cleanup | killenv (k : Nat) | rel (k : Nat)
   | xfail (k j : Nat) (upd : Bool) | afail (k j : Nat) (upd : Bool)
   | newd (k : Nat) (f a kp : Bool)
+  | idle (ms : Nat)                 -- the harness let time pass: nothing happens in the model
   deriving Repr, Inhabited
 
 structure Scenario where
@@ -97,6 +109,7 @@ def parseOp : SExp → Option OpIn
   | .list [.atom "xfail", k, j, u] => do pure (.xfail (← k.nat?) (← j.nat?) (← u.bool?))
   | .list [.atom "afail", k, j, u] => do pure (.afail (← k.nat?) (← j.nat?) (← u.bool?))
   | .list [.atom "newd", k, f, a, kp] => do pure (.newd (← k.nat?) (← f.bool?) (← a.bool?) (← kp.bool?))
+  | .list [.atom "idle", n] => do pure (.idle (← n.nat?))
   | _ => none
 
 def parseScenario (s : String) : Option Scenario :=
@@ -351,6 +364,29 @@ def liftStep (st : State → Step) : SubStep := sub (fun s => step s (st s))
 def victim (s : State) (k j : Nat) : Option MTask :=
   (s.master.filter (fun m => decide (m.label = k) && decide (m.role = j) && decide (m.mesos ≠ .terminal))).getLast?
 
+/-- Does the scenario script a failing KILL call at all? -/
+def hasRefuse (sc : Scenario) : Bool := sc.envs.any (fun e => e.roles.any (fun r => r.kill == "refuse"))
+
+/-- The tasks whose KILL calls failed in this round, by name: still running according to the master, no KILL
+    counted for them, and back in the roster without an owner. -/
+def refusedNames (ro : RoundObs) : List String :=
+  match ro.snap with
+  | some (.list [_, .list ros, _, .list mts, _]) =>
+    mts.filterMap (fun
+      | .list [.atom n, .atom ms, kl] =>
+        if ms != "terminal" && !((kl.bool?).getD false) &&
+           ros.any (fun
+             | .list [.atom n', .atom "-", _, _] => n' == n
+             | _ => false)
+        then some n else none
+      | _ => none)
+  | _ => []
+
+/-- `State.refusing` for the names, in the state as it is now (tasks launched meanwhile included). -/
+def withRefusing (names : List String) (s : State) : State :=
+  { s with refusing := (List.range s.master.length).filterMap (fun i =>
+      if names.contains (nameAt s.master i) then (s.master[i]?).map (·.id) else none) }
+
 /-- Does the round release tasks (a destroy, or a creation scripted to fail after deployment)?
     Only then does it matter where a creation's pre-deployment Cleanup falls. -/
 def roundReleases (sc : Scenario) (ops : List OpIn) : Bool :=
@@ -388,7 +424,9 @@ def threadOf (sc : Scenario) (ops : List OpIn) (ro : RoundObs) (idx : Nat) (op :
           | _ => true)
       | _ => false
     { idx := idx, steps := [liftStep (fun s =>
-        .control k ev (trFails sc s k ev.name) (decide (ev = .START) && conc && untouched && obsRes == .okState "ERROR"))] }
+        -- (the loser answers an error since ControlEnvironment reports the error of a failed transition; before: OK with state ERROR)
+        .control k ev (trFails sc s k ev.name) (decide (ev = .START) && conc && untouched &&
+          (obsRes == .okState "ERROR" || obsRes == .err "failed")))] }
   | .destroy k f a kp =>
     { idx := idx, steps := [liftStep (fun s => .destroy k f a kp
         { stopFails := trFails sc s k "STOP", resetFails := trFails sc s k "RESET", late1 := hang, late2 := hang,
@@ -404,6 +442,7 @@ def threadOf (sc : Scenario) (ops : List OpIn) (ro : RoundObs) (idx : Nat) (op :
   | .xfail k j _ => if createdHere ops k then { idx := idx, steps := [sub (fun s => (s, .ok))] } else lossThread false k j
   | .afail k j _ => if createdHere ops k then { idx := idx, steps := [sub (fun s => (s, .ok))] } else lossThread true k j
   | .newd _ _ _ _ => { idx := idx, steps := [] }     -- two threads: see `threadsOf`
+  | .idle _ => { idx := idx, steps := [sub (fun s => (s, .ok))] }
 where
   /-- The executor / agent of the host the victim runs on is lost (nothing happens if there is no
       victim); then the watchers that were seen to react do (which ones are still alive is the
@@ -457,6 +496,27 @@ def creationPieces (sc : Scenario) (ops : List OpIn) (ro : RoundObs) (k : Nat) (
                let r := settleKill s m
                (l, r.1, r.2) } ]
 
+/-- A creation cut once, between DEPLOY and what follows it (`settleDeploy` · `settleRest` = `createSettle`): with
+    reuseUnlockedTasks two creations of one round may both have earmarked an unlocked task and both commit it in their
+    DEPLOY sections (finding reuse_claim_race) — the second commit overwrites the first, and the loser's forced teardown
+    then meets a release error. -/
+def creationCoarse (sc : Scenario) (ops : List OpIn) (ro : RoundObs) (k : Nat) (hang : Bool) : List SubStep :=
+  let spec := match sc.envs[k]? with
+    | some e => specOf e
+    | none => { bad := .nowf, dets := [], roles := [] }
+  let o := settleOracle sc k ro hang (lostInCreation sc ops k)
+  [liftStep (fun _ => .createBegin k spec), liftStep (fun _ => .createCleanup k), liftStep (fun _ => .createInsert k),
+   liftStep (fun _ => .createClaim k),
+   { run := fun l s => if s.crashed then (l, s, .crash) else
+       match settleDeploy s k o with
+       | (s1, none, r) => ({ l with skip := true }, s1, r)
+       | (s1, some m, _) => ({ l with mid := some m }, s1, .noop) },
+   { run := fun l s => match l.mid with
+       | none => (l, s, .noop)
+       | some m => if l.skip then (l, s, .noop) else if s.crashed then (l, s, .crash) else
+         let r := settleRest s m
+         ({ l with skip := true }, r.1, r.2) }]
+
 /-- The destroy half of a `newd`. It was issued after the environment was seen listed inside a
     transition of its creation (or after the creation returned): never before DEPLOY was entered —
     in the model: not while the creation is still pending. -/
@@ -497,6 +557,12 @@ def threadsOf (sc : Scenario) (ops : List OpIn) (ro : RoundObs) (idx : Nat) (op 
     else [threadOf sc ops ro idx op]
   | .new k =>
     if ro.wedged && ro.results.getD idx .ok == .hang then [{ idx := idx, steps := creationPieces sc ops ro k true }]
+    -- scripted KILL failures: the creation is replayed cut at its sections (`C06_settle_pieces`: the same function), so
+    -- that the tasks DEPLOY launched can be named when the failure tail's KillTasks is reached
+    else if hasRefuse sc then [{ idx := idx, steps := creationPieces sc ops ro k }]
+    -- reuseUnlockedTasks and another creation in the same round: DEPLOY and what follows it are separate steps
+    else if sc.reuse && (ops.filter (fun | .new _ => true | _ => false)).length > 1 then
+      [{ idx := idx, steps := creationCoarse sc ops ro k (ro.results.getD idx .ok == .hang) }]
     else [threadOf sc ops ro idx op]
   | _ => [threadOf sc ops ro idx op]
 
@@ -514,6 +580,7 @@ def resMatches (conc : Bool) (o : ResObs) (m : Res) : Bool :=
   | .err "configure", .errConfigure => true
   | .err "notfound", .notfound => true
   | .err "failed", .err => true
+  | .err "cleanup", .err => true      -- CleanupTasks: "could not kill some tasks"
   | .err "failed", .notfound => true   -- the request found the environment and then lost the race with its deletion
   | .hang, .hang => true
   | .lost _, .ok => true       -- the reactions listed were replayed as steps
@@ -585,7 +652,13 @@ def replay (sc : Scenario) (obs : List RoundObs) : Replay :=
     | [], _ :: _ => { verdict := some "more-rounds-observed-than-scripted", states := acc.reverse }
     | ops :: rounds', ro :: obs' =>
       if ro.results.length ≠ ops.length then { verdict := some s!"round-{n}-result-count", states := acc.reverse } else
-      let ths := (ops.zipIdx).flatMap (fun p => threadsOf sc ops ro p.2 p.1)
+      let ths0 := (ops.zipIdx).flatMap (fun p => threadsOf sc ops ro p.2 p.1)
+      -- scripted KILL failures: the calls that failed in this round (read off the snapshot) fail in the model too
+      let rn := refusedNames ro
+      let ths := if hasRefuse sc
+        then ths0.map (fun t => { t with steps := t.steps.map (fun st =>
+               { st with run := fun l s => st.run l (withRefusing rn s), en := fun l s => st.en l (withRefusing rn s) }) })
+        else ths0
       match explore (checkRound ro) ths s with
       | none =>
         -- for the reader of the result file: what the model does when the operations run one after the other
@@ -604,7 +677,7 @@ def replay (sc : Scenario) (obs : List RoundObs) : Replay :=
 def envsOfOps (ops : List OpIn) : List Nat :=
   ops.filterMap (fun
     | .new k => some k | .ctl k _ => some k | .destroy k _ _ _ => some k
-    | .killenv k => some k | .rel k => some k | .cleanup => none
+    | .killenv k => some k | .rel k => some k | .cleanup => none | .idle _ => none
     | .xfail k _ _ => some k | .afail k _ _ => some k | .newd k _ _ _ => some k)
 
 /-- Environments a call on which was seen to hang in this round. -/
